@@ -79,8 +79,8 @@ ASSUMPTIONS = [
 ]
 
 FLOORS = {
-    'quick': {'states': 6, 'transitions': 4000, 'validated': 2000, 'outcomes': 3, 'set:symbols_executed': 54, 'set:fault_types': 6, 'set:faults': 15},
-    'thorough': {'states': 6, 'transitions': 250000, 'validated': 90000, 'outcomes': 3, 'set:symbols_executed': 54, 'set:fault_types': 6, 'set:faults': 15},
+    'quick': {'states': 6, 'transitions': 4000, 'validated': 2000, 'outcomes': 3, 'set:symbols_executed': 57, 'set:fault_types': 6, 'set:faults': 15},
+    'thorough': {'states': 6, 'transitions': 250000, 'validated': 90000, 'outcomes': 3, 'set:symbols_executed': 57, 'set:fault_types': 6, 'set:faults': 15},
 }
 
 WD = 10  # seconds per library call
@@ -411,6 +411,11 @@ def _insert_bad(cx):
 sym('Selector(bad)', "cssutils.css.Selector('a,,')")(lambda cx: cssutils.css.Selector('a,,'))
 sym('PropertyValue(bad)', "cssutils.css.PropertyValue('1px }')")(lambda cx: cssutils.css.PropertyValue('1px }'))
 sym('PropertyValue(1;)', "cssutils.css.PropertyValue('1;')")(lambda cx: cssutils.css.PropertyValue('1;'))
+sym('setProperty(rgb-lone-sign)', "cssutils.css.CSSStyleDeclaration().setProperty('color', 'rgb(- 1, 2, 3)')")(
+    lambda cx: cssutils.css.CSSStyleDeclaration().setProperty('color', 'rgb(- 1, 2, 3)'))
+sym('DimensionValue(bad)', "cssutils.css.DimensionValue('px')")(lambda cx: cssutils.css.DimensionValue('px'))
+parse_sym('CSSParser(raise).parseString(rgb-lone-sign)', lambda cx: cssutils.CSSParser(raiseExceptions=True).parseString('x{color:rgb(+, 2, 3)}'),
+          "cssutils.CSSParser(raiseExceptions=True).parseString('x{color:rgb(+, 2, 3)}')")
 sym('MediaList(bad)', "cssutils.stylesheets.MediaList('screen, 3')")(lambda cx: cssutils.stylesheets.MediaList('screen, 3'))
 sym('MediaList(and()', "cssutils.stylesheets.MediaList('screen/*c*/and(')")(lambda cx: cssutils.stylesheets.MediaList('screen/*c*/and('))
 
